@@ -38,7 +38,7 @@ func (c *userTypesCollector) collect(node ischema.Node) {
 	case *ischema.MixedValueNode:
 		for _, ut := range strings.Split(n.Value().String(), "|") {
 			s := strings.TrimSpace(ut)
-			if s[0] == '@' {
+			if len(s) != 0 && s[0] == '@' {
 				c.addType(s)
 			}
 		}
@@ -69,7 +69,7 @@ func (c *userTypesCollector) collectUserTypesFromAllOfConstraint(node ischema.No
 	}
 
 	for _, name := range allOf.SchemaNames() {
-		if name[0] == '@' {
+		if len(name) != 0 && name[0] == '@' {
 			c.addType(name)
 		}
 	}
@@ -96,7 +96,7 @@ func (c *userTypesCollector) collectUserTypesObjectNode(node *ischema.ObjectNode
 		k := v.Key
 
 		if v.IsShortcut {
-			if k[0] == '@' {
+			if len(k) != 0 && k[0] == '@' {
 				c.addType(k)
 			}
 		}
